@@ -58,6 +58,8 @@ func (q *UnsafeQuery) Close() {
 	q.cursor.table = -2
 	q.tables = nil
 	q.table = nil
+	q.cursor.index = 0
+	q.cursor.maxIndex = -1
 	q.world.unlockSafe(q.lock)
 }
 
@@ -72,8 +74,11 @@ func (q *UnsafeQuery) nextArchetype() bool {
 	q.tables = nil
 	maxArchIndex := int32(len(q.world.storage.archetypes) - 1)
 	for q.cursor.archetype < maxArchIndex {
-		q.cursor.archetype++
-		archetype := &q.world.storage.archetypes[q.cursor.archetype]
+		// The cursor moves only after the lookup: on a finished or closed query (archetype -2)
+		// the lookup fails, and it fails again on every further call.
+		next := q.cursor.archetype + 1
+		archetype := &q.world.storage.archetypes[next]
+		q.cursor.archetype = next
 		if !q.filter.matches(&archetype.mask) {
 			continue
 		}
